@@ -5,7 +5,7 @@ CHECK = {
     "level": "exploration",
     "engine": "manager-scenario-engine",
     "technique": "stateful property testing (rapid state machine) of the service with a harness-owned schedule of background job completions; invariant evaluated inside the service loop after every step",
-    "rule": ('scenario = generated UDP traffic (3-8 flows, up to 26 datagrams with payloads from a small pool, cut into 2-5 capture files so flows continue across captures) plus a rapid state-machine history of: importing the next capture(s), tag add / query edit / delete / colour, mark add / remove, converter attach / detach / reset, opening / using / releasing views, and *delivering the completion of a parked background job* (import, tagging, merge, convert) chosen by the generator - every job parks at a gate right before it posts its completion to the service loop, so the order of completions relative to API calls and to each other is generated; '
+    "rule": ('scenario = generated UDP traffic (3-8 flows, up to 26 datagrams with payloads from a small pool, cut into 2-5 capture files so flows continue across captures) plus a rapid state-machine history of: importing the next capture(s), tag add / query edit / delete / colour, mark add / remove, converter attach / detach / reset, opening / using / releasing views, and *delivering the completion of a parked background job* (import, tagging, merge, convert) chosen by the generator - every job parks at a gate right before it posts its completion to the service loop, so the order of completions relative to API calls and to each other is generated. Scenario variants added later: one scenario in sixteen has 63/64/65/127/128 single-datagram flows (bitmap word boundaries); one import in eight also queues an upload that is no capture (empty, garbage, cut header); streams whose payload contains "x5" make the harness converter answer with a stray line in front of its output (the service gives up on them: no cached output may exist); tag/d, which no other tag refers to, may get a definition with a sub-query (ground truth by vq.EvalNFSub: some visible stream per sub-query name makes every condition true); a step can make every later merge fail (its output directory is switched to a missing one): a failed merge must not be restarted for ever.; '
              'after the history API calls stop and parked jobs are delivered oldest-first, newest-first or in generated order; quiescence (no job flagged running, none parked, import queue empty, no tag with pending streams, no converter queue) must be reached within 40+8*(tags+captures)+2*streams*(converters+1) deliveries; a running flag without a job, a job body that never reaches its gate, or a completion that never runs (60 s) is a failure. Non-trivial: >=3 kinds of job were delivered and >=2 jobs were parked at the same time.'),
     "level_text": 'invariant checked after every step of generated histories with generated completion orders; finds lost invalidations / reference-count and snapshot errors that need a specific interleaving; no absence claim',
     "level_note": "bounded liveness under a scheduler the harness owns: 'eventually' is 'within B deliveries'; job bodies run to their gate immediately, what is generated is the delivery order; two jobs of the same kind in flight are impossible by construction of the running flags",
